@@ -177,7 +177,38 @@ def r7_3(ctx):
         body = [s for s in f.node.body if not (isinstance(s, ast.Expr) and isinstance(s.value, ast.Constant))]
         loops = [s for s in body if isinstance(s, ast.For)]
         ok = len(loops) == 1 and "loop_last(widths)" in norm(loops[0].iter)
-        if ok:
+        if not loops:
+            # shape B (possibly through a shared helper): [left +] D.join([H * w for w in widths]) [+ right]
+            from ..astutil import concat_parts
+            from .common import return_forms
+            forms = return_forms(f)
+            okb = bool(forms)
+            for facts, v in forms:
+                parts = concat_parts(v)
+                exprs = [p_[1] for p_ in parts if isinstance(p_, tuple)]
+                lits = [p_ for p_ in parts if isinstance(p_, str)]
+                joins = [e for e in exprs if ".join(" in e]
+                if lits or len(joins) != 1:
+                    okb = False
+                    continue
+                j = ast.parse(joins[0], mode="eval").body
+                good_join = (isinstance(j, ast.Call) and isinstance(j.func, ast.Attribute) and j.func.attr == "join" and len(j.args) == 1 and isinstance(j.args[0], (ast.ListComp, ast.GeneratorExp)) and len(j.args[0].generators) == 1
+                             and not j.args[0].generators[0].ifs and norm(j.args[0].generators[0].iter) == "widths" and isinstance(j.args[0].elt, ast.BinOp) and isinstance(j.args[0].elt.op, ast.Mult)
+                             and norm(j.args[0].generators[0].target) in (norm(j.args[0].elt.left), norm(j.args[0].elt.right)))
+                edges = [e for e in exprs if e != joins[0]]
+                pos = exprs.index(joins[0])
+                if name == "get_row":
+                    want_edges = 2 if facts.get("edge") is True else (0 if facts.get("edge") is False else None)
+                else:
+                    want_edges = 2
+                good_edges = want_edges is not None and len(edges) == want_edges and (want_edges == 0 or (pos == 1 and len(exprs) == 3))
+                if name != "get_row" and good_edges:
+                    side = "top" if name == "get_top" else "bottom"
+                    good_edges = edges == [f"self.{side}_left", f"self.{side}_right"] and norm(j.func.value) == f"self.{side}_divider" and f"self.{side}" in (norm(j.args[0].elt.left), norm(j.args[0].elt.right))
+                if not (good_join and good_edges):
+                    okb = False
+            ok = okb
+        elif ok:
             lp = loops[0]
             wv = norm(lp.target.elts[1])
             lastv = norm(lp.target.elts[0])
